@@ -62,7 +62,7 @@ static void check_case(vg::Src& s, vh::Ctx& c)
             {
                 if (!fc.mask.empty())
                     graphs[g]->set_mask(fc.mask);
-                graphs[g]->set_base_levels(fc.bl);
+                graphs[g]->set_base_levels(scrambled(fc.bl));
             }
             fc.z = vg::gen_field(s, fc.m);
             lev = spill_levels(fc);
